@@ -313,6 +313,11 @@ Theorem C19_config_last_wins : forall opts o,
 Proof. intros opts o. split; [apply cfg_active_last|apply cfg_clock_last]. Qed.
 Print Assumptions C19_config_last_wins.
 
+Theorem C19_config_event_clocks : forall opts o,
+  cfg_mclock (opts ++ [o]) = match o with CClock k | CResClock k | CModeClock k => k | _ => cfg_mclock opts end /\
+  cfg_aclock (opts ++ [o]) = match o with CClock k | CResClock k | CActiveClock k => k | _ => cfg_aclock opts end.
+Proof. exact cfg_event_clocks_last. Qed.
+
 Theorem C19_config_panics_iff : forall opts,
   new_model opts = None <->
   (exists ms m, In (CInitial ms) opts /\ In m ms /\ mid m = EmptyString) \/ ~ NoDup (keys (cfg_records opts)).
@@ -354,7 +359,7 @@ Theorem C19_update_returns_id : forall l m w l' b, update_w true l m w = (l', 0,
 Proof. exact update_w_returns_id. Qed.
 Print Assumptions C19_update_returns_id.
 
-(* the code before repair 76c7893 (no id-restoring interceptor): refuted for create-if-absent
+(* the code before repair 76cf766 (no id-restoring interceptor): refuted for create-if-absent
    without a reset mask and for a reset mask without create-if-absent *)
 Theorem C19_update_options_v0_refuted :
   (exists l m w, keyed l /\ ~ keyed (fst (fst (update_w false l m w))) /\ w_reset w = None) /\
